@@ -314,10 +314,14 @@ func Run(sc Scenario) *Result {
 		return done
 	}
 	waitCh := func(ch chan struct{}, what string) bool {
+		bound := waitLong
+		if len(res.Stuck) > 0 {
+			bound = time.Second // the scenario already ran into the liveness bound once: do not pay it again for every later wait
+		}
 		select {
 		case <-ch:
 			return true
-		case <-time.After(waitLong):
+		case <-time.After(bound):
 			res.Stuck = append(res.Stuck, what)
 			return false
 		}
